@@ -2301,7 +2301,9 @@ class Fouriergate(Gate):
     def merge(self, other):
         # The Fourier gate has no free parameter (its rotation angle is fixed), so the generic
         # "add the first parameters" rule does not apply: two Fourier gates only merge if they cancel.
-        if isinstance(other, Fouriergate) and self.dagger != other.dagger:
+        if not self.__class__ == other.__class__:
+            raise MergeFailure("Not the same gate family.")
+        if self.dagger != other.dagger:
             return None
         raise MergeFailure("Fourier gates can only be merged with their inverse.")
 
